@@ -33,11 +33,11 @@ NA = {
  'C30': 'pure (fresh Dummy indices affect names, not solution sets).',
  'C31': 'pure function of (f, x, n); the step_list static cache is noted in DESIGN.md but the property does not quantify over histories.',
  'C34': 'pure function of (expression, assumption set).',
- 'C35': 'pure.',
- 'C36': 'pure.',
+ 'C35': 'refine() and simplify() are pure functions of (expression, assumption set) on immutable trees: no state survives a call, nothing is scheduled, timed, read, written or retried, and no fault can be injected short of allocation failure, about which the property says nothing. The quantifier is over inputs only, so deterministic simulation has nothing to decide; input generation alone would be property-based testing, a different technique.',
+ 'C36': 'the rewriting transformations (as_numer_denom, as_real_imag, rewrite_as_exp/sin/cos, conjugate, trig_to_sqrt) are pure functions of an immutable expression; value preservation is a statement about inputs and evaluation points only. No history, schedule, clock, I/O or shared mutable state is involved, so there is no seam for a simulator to own.',
  'C37': 'pure function of the expression list (fresh symbols chosen relative to the input, not global state).',
- 'C38': 'pure.',
- 'C39': 'pure tree walks.',
+ 'C38': 'generate_fdiff_weights_vector is a pure function of (grid, order, centre) over exact arithmetic with no cache or global state; the quantifier ranges over inputs only. Nothing to schedule or fault.',
+ 'C39': 'free_symbols, has_symbol, atoms, coeff and the other structural queries are read-only walks over an immutable tree that keep no state between calls (the visitors are constructed per call); the property quantifies over inputs only. No schedule, history, clock or fault seam (concurrent read-only walks over shared trees are covered by C41).',
  'C40': 'quantifies over programs on valid arguments under sanitizers; with immutable values a program is an input, and the statement has no schedule, history or fault (it does not promise exception safety under allocation failure). Sanitizer fuzzing is a different family; all simulated runs of the claimed checks do execute under ASan/UBSan/TSan.',
  'C42': 'equivalence of two call paths on the same argument values and deterministic exception translation; no schedule, clock, fault or seam.',
  'C43': 'quantifies over build configurations; comparing builds is differential / translation validation.',
